@@ -1,6 +1,6 @@
 #!/bin/bash
 # runs every registered quick check once; usage: tools/runall.sh [seed] [tier]
-cd /verif
+cd "$(dirname "$(readlink -f "$0")")/.."
 SEED=${1:-0}; TIER=${2:-quick}
 for id in $(/venv/bin/python -c "import json;print(' '.join(c['property_id'] for c in json.load(open('MANIFEST.json'))['checks']))"); do
   s=$(date +%s)
@@ -8,4 +8,4 @@ for id in $(/venv/bin/python -c "import json;print(' '.join(c['property_id'] for
   e=$(date +%s)
   echo "$id seed=$SEED tier=$TIER exit=$rc wall=$((e-s))s viol_lines=$(grep -c '^VIOLATION' /tmp/runall_${id}_s${SEED}_${TIER}.log) :: $(tail -1 /tmp/runall_${id}_s${SEED}_${TIER}.log | cut -c1-160)"
 done
-cd /verif && git checkout -- evidence 2>/dev/null
+git checkout -- evidence 2>/dev/null
